@@ -223,6 +223,59 @@ func (v *vRange) Validate() error {
 	return nil
 }
 
+type vUV struct {
+	Min  int
+	Max  int
+	Name string
+}
+
+func (v *vUV) Unpack(c *ucfg.Config) error {
+	var raw struct {
+		Min  *int    `config:"min"`
+		Max  *int    `config:"max"`
+		Name *string `config:"name"`
+	}
+	if err := c.Unpack(&raw); err != nil {
+		return err
+	}
+	if raw.Min != nil {
+		v.Min = *raw.Min
+	}
+	if raw.Max != nil {
+		v.Max = *raw.Max
+	}
+	if raw.Name != nil {
+		v.Name = *raw.Name
+	}
+	return nil
+}
+
+func (v *vUV) Validate() error {
+	if v.Min > v.Max {
+		return fmt.Errorf("min > max")
+	}
+	return nil
+}
+
+type vW struct {
+	Workers int `config:"workers" validate:"min=1"`
+}
+
+type vPort int
+
+func (p *vPort) Validate() error {
+	if *p <= 0 {
+		return fmt.Errorf("port must be positive")
+	}
+	return nil
+}
+
+type vMaps struct {
+	I map[string]interface{} `config:"i"`
+	R map[string]vRange      `config:"r"`
+	P vPort                  `config:"p"`
+}
+
 type vOuter struct {
 	Label string  `config:"label"`
 	R     vRange  `config:"r"`
@@ -272,6 +325,18 @@ func (u *vUnp) Unpack(v int64) error { *u = vUnp(v); return nil }
 type vUnpS string
 
 func (u *vUnpS) Unpack(s string) error { *u = vUnpS(s); return nil }
+
+// vUnpCfg: takes its setting as a configuration of its own and reads it with a typed getter
+type vUnpCfg struct{ Retries int }
+
+func (u *vUnpCfg) Unpack(c *ucfg.Config) error {
+	n, err := c.Int("retries", -1)
+	if err != nil {
+		return err
+	}
+	u.Retries = int(n)
+	return nil
+}
 
 type vNz int
 
@@ -417,6 +482,65 @@ func hookedCases(g *Gen) {
 			Desc: map[string]interface{}{"kind": "hooked", "type": "vHook (U: IntUnpacker under min=5; S: StringUnpacker under required; L, M: elements with a Validate hook rejecting zero)", "config": descTree(cfgH), "observed": d, "after": fmt.Sprintf("%+v", x)},
 			Tags: []string{"hooked:vHook"}, Nontrivial: true})
 	}
+	// (e) pre-filled map entries the configuration does not mention (held in interface{} next to a
+	// null setting; held by value with a pointer-receiver Validate) and a named primitive with a
+	// pointer-receiver Validate: [GStructV [w]] with w = 1 iff every such value is valid afterwards
+	for i := 0; i < 12; i++ {
+		x := vMaps{P: 1}
+		cfgM := map[string]interface{}{}
+		bad := false
+		switch i % 4 {
+		case 0:
+			x.I = map[string]interface{}{"old": &vW{Workers: r.Intn(2)}}
+			cfgM["i"] = []interface{}{map[string]interface{}{"extra": nil}, map[string]interface{}{"extra": nil, "more": nil}, map[string]interface{}{"extra": int64(1)}, map[string]interface{}{}}[r.Intn(4)]
+		case 1:
+			x.R = map[string]vRange{"old": {Min: []int{9, 0}[r.Intn(2)], Max: 1, Name: "x"}}
+			if r.Bool() {
+				cfgM["r"] = map[string]interface{}{"new": map[string]interface{}{"min": int64(1), "max": int64(2)}}
+			}
+		case 2:
+			cfgM["p"] = int64([]int{0, -1, 5}[r.Intn(3)])
+		default:
+			x.I = map[string]interface{}{"old": &vW{Workers: 1}, "older": &vW{Workers: r.Intn(2)}}
+			cfgM["i"] = map[string]interface{}{"extra": nil, "old": map[string]interface{}{"workers": int64(r.Intn(3))}}
+		}
+		valid := func(x vMaps) int {
+			ok := x.P > 0
+			for _, e := range x.I {
+				if w, is := e.(*vW); is && w != nil && w.Workers < 1 {
+					ok = false
+				}
+			}
+			for _, e := range x.R {
+				if e.Min > e.Max {
+					ok = false
+				}
+			}
+			if ok {
+				return 1
+			}
+			return 0
+		}
+		_ = bad
+		c, _ := ucfg.NewFrom(cfgM)
+		old, oldD := fmt.Sprintf("(GStructV [GP (CI (%d))])", valid(x)), fmt.Sprintf("%+v", x)
+		var err error
+		p, pm := guard(func() { err = c.Unpack(&x) })
+		obs, d := "UPanic", "PANIC "+pm
+		if !p && err != nil {
+			name, path := "EOther", ""
+			if e, ok := err.(ucfg.Error); ok {
+				name, path = reasonName(e), e.Path()
+			}
+			obs, d = fmt.Sprintf("(UErr %s %s)", name, coqStr(path)), descErr(err)
+			old = fmt.Sprintf("(GStructV [GP (CI (%d))])", valid(x)) // (atomicity of these targets is not the subject here)
+		} else if !p {
+			obs, d = fmt.Sprintf("(UOk (GStructV [GP (CI (%d))]))", valid(x)), fmt.Sprintf("%+v", x)
+		}
+		g.Add(Case{Coq: fmt.Sprintf("CHooked %s (TStruct []) %s %s (GStructV [GP (CI (%d))])", coqStr("vAllValid"), old, obs, valid(x)),
+			Desc: map[string]interface{}{"kind": "hooked", "type": "vMaps (I map[string]interface{} holding *vW{Workers min=1}; R map[string]vRange by value, Validate on the pointer; P vPort with Validate on the pointer)", "prefilled": oldD, "config": descTree(cfgM), "observed": d, "after": fmt.Sprintf("%+v", x)},
+			Tags: []string{"hooked:vMaps"}, Nontrivial: true})
+	}
 	// (c) defaults of primitive types meet the validators
 	for i := 0; i < 12; i++ {
 		cfgI := map[string]interface{}{}
@@ -473,6 +597,21 @@ func hookedCases(g *Gen) {
 			g.Add(Case{Coq: fmt.Sprintf("CHooked %s %s %s %s %s", coqStr("vRange"), vRangeTy.coq(), old, obs, coqGV(vRangeTy, reflect.ValueOf(x))),
 				Desc: map[string]interface{}{"kind": "hooked", "type": "vRange (Validate: min <= max)", "prefilled": oldD, "config": descTree(cfgR), "observed": d, "after": fmt.Sprint(x)},
 				Tags: []string{"hooked:vRange"}, Nontrivial: true})
+		}
+		// (a') a top-level struct that takes its settings through an Unpack method of its own AND
+		// has a Validate hook: a configuration its Unpack accepts and its Validate rejects
+		{
+			m := mk()
+			x := vUV{m.Min, m.Max, m.Name}
+			c, _ := ucfg.NewFrom(cfgR)
+			old := coqGV(vRangeTy, reflect.ValueOf(x))
+			oldD := fmt.Sprint(x)
+			var err error
+			p, pm := guard(func() { err = c.Unpack(&x) })
+			obs, d := uobs(vRangeTy, reflect.ValueOf(x), err, p, pm)
+			g.Add(Case{Coq: fmt.Sprintf("CHooked %s %s %s %s %s", coqStr("vUV"), vRangeTy.coq(), old, obs, coqGV(vRangeTy, reflect.ValueOf(x))),
+				Desc: map[string]interface{}{"kind": "hooked", "type": "vUV (Unpack(*Config) of its own and Validate: min <= max)", "prefilled": oldD, "config": descTree(cfgR), "observed": d, "after": fmt.Sprint(x)},
+				Tags: []string{"hooked:vUV"}, Nontrivial: true})
 		}
 		// (b) nested and behind a pointer
 		{
@@ -576,6 +715,41 @@ func apiErrCases(g *Gen) {
 		g.Add(Case{Coq: fmt.Sprintf("CApiErr %s %s %s %s %s", coqStr(entry), coqStr(path), coqStr(source), coqBool(typed), coqStr(msg)),
 			Desc: map[string]interface{}{"kind": "api-error", "entry": entry, "fault_path": path, "message": msg, "typed": typed},
 			Tags: []string{"api-error", "entry:" + strings.SplitN(entry, " ", 2)[0]}, Nontrivial: true})
+	}
+	// fields whose type takes its setting through an Unpack method: the setting is part of a
+	// reference cycle, cannot be resolved, or the method itself fails with a typed error of a
+	// configuration of its own - the error names the setting that was being unpacked
+	{
+		opts := []ucfg.Option{ucfg.PathSep("."), ucfg.VarExp}
+		lopts := append(append([]ucfg.Option{}, opts...), ucfg.MetaData(ucfg.Meta{Source: source}))
+		type lst struct {
+			P vUnp `config:"p"`
+		}
+		type bk struct {
+			Policy vUnpCfg `config:"policy"`
+			Name   vUnpS   `config:"name"`
+		}
+		type srv struct {
+			L []lst         `config:"l"`
+			B map[string]bk `config:"b"`
+		}
+		for k, tree := range []map[string]interface{}{
+			{"srv": map[string]interface{}{"l": []interface{}{map[string]interface{}{"p": "${srv.d.p}"}}, "d": map[string]interface{}{"p": "${srv.l.0.p}"}}},
+			{"srv": map[string]interface{}{"l": []interface{}{map[string]interface{}{"p": int64(1)}, map[string]interface{}{"p": "${nope}"}}}},
+			{"srv": map[string]interface{}{"b": map[string]interface{}{"primary": map[string]interface{}{"policy": map[string]interface{}{"retries": "many"}}}}},
+			{"srv": map[string]interface{}{"b": map[string]interface{}{"primary": map[string]interface{}{"name": "${srv.b.primary.name}"}}}},
+		} {
+			c, err := ucfg.NewFrom(tree, lopts...)
+			if err != nil {
+				continue
+			}
+			var st struct {
+				Srv srv `config:"srv"`
+			}
+			var uerr error
+			p, _ := guard(func() { uerr = c.Unpack(&st, opts...) })
+			add("Unpack into a field with an Unpack method", []string{"srv.l.0.p", "srv.l.1.p", "srv.b.primary.policy", "srv.b.primary.name"}[k], uerr, p)
+		}
 	}
 	for i := 0; i < 10; i++ {
 		// where the faulty setting lives: below a random prefix of names and list indices
@@ -818,6 +992,8 @@ func genReify(g *Gen, mode string) {
 				t, cfgData, fix = keptInvalid(r)
 			} else if tcfg.Validators && r.P(1, 12) {
 				t, cfgData, fix = ptrInvalid(r)
+			} else if tcfg.Handling && (i < 4 || r.P(1, 16)) {
+				t, cfgData, fix = mapOfArrays(r)
 			} else if tcfg.Handling && r.P(1, 10) {
 				t, cfgData, fix = emptiedLists(r)
 			} else if mode == "C04" && r.P(1, 12) {
@@ -982,6 +1158,61 @@ func emptiedLists(r *Rng) (*tyNode, map[string]interface{}, func(reflect.Value))
 		im := reflect.MakeMap(v.Field(2).Type())
 		im.SetMapIndex(reflect.ValueOf("a"), reflect.ValueOf([]interface{}{5, 6}))
 		v.Field(2).Set(im)
+	}
+	return t, cfg, fix
+}
+
+// mapOfArrays: pre-filled map entries that are fixed-size arrays (and slices) of structs; the
+// configuration mentions an entry and sets only some fields of its elements: the others keep
+// what they held (struct -> map -> array -> struct)
+func mapOfArrays(r *Rng) (*tyNode, map[string]interface{}, func(reflect.Value)) {
+	intT := &tyNode{Kind: "prim", Prim: primKinds[1]}
+	strT := &tyNode{Kind: "prim", Prim: primKinds[9]}
+	el := &tyNode{Kind: "struct", Fields: []tyField{{GoName: "Host", CTag: "host", T: strT}, {GoName: "Port", CTag: "port", T: intT}}}
+	at := &tyNode{Kind: "array", N: 2, Elem: el}
+	st := &tyNode{Kind: "slice", Elem: el}
+	t := &tyNode{Kind: "struct", Fields: []tyField{
+		{GoName: "M", CTag: "m", T: &tyNode{Kind: "map", Elem: at}},
+		{GoName: "S", CTag: "s", T: &tyNode{Kind: "map", Elem: st}},
+		{GoName: "A", CTag: "a", T: at},
+		{GoName: "Z", CTag: "z", T: intT}}}
+	part := func() interface{} {
+		switch r.Intn(3) {
+		case 0:
+			return map[string]interface{}{"host": "new"}
+		case 1:
+			return map[string]interface{}{"port": int64(7)}
+		}
+		return map[string]interface{}{}
+	}
+	cfg := map[string]interface{}{"z": int64(1),
+		"m": map[string]interface{}{"a": []interface{}{part(), part()}},
+		"s": map[string]interface{}{"a": []interface{}{part()}},
+		"a": []interface{}{part(), part()}}
+	if r.Bool() {
+		cfg["m"].(map[string]interface{})["c"] = []interface{}{part(), part()}
+	}
+	fix := func(v reflect.Value) {
+		mk := func(h string, p int) reflect.Value {
+			e := reflect.New(el.goType()).Elem()
+			e.Field(0).SetString(h)
+			e.Field(1).SetInt(int64(p))
+			return e
+		}
+		arr := reflect.New(at.goType()).Elem()
+		arr.Index(0).Set(mk("h0", 80))
+		arr.Index(1).Set(mk("h1", 81))
+		mm := reflect.MakeMap(v.Field(0).Type())
+		mm.SetMapIndex(reflect.ValueOf("a"), arr)
+		mm.SetMapIndex(reflect.ValueOf("b"), arr)
+		v.Field(0).Set(mm)
+		sl := reflect.MakeSlice(st.goType(), 2, 2)
+		sl.Index(0).Set(mk("s0", 90))
+		sl.Index(1).Set(mk("s1", 91))
+		sm := reflect.MakeMap(v.Field(1).Type())
+		sm.SetMapIndex(reflect.ValueOf("a"), sl)
+		v.Field(1).Set(sm)
+		v.Field(2).Set(arr)
 	}
 	return t, cfg, fix
 }
